@@ -45,10 +45,10 @@ OBJ = -1   # stands for `object` in pure-function rows
 # tier -> program levels (n, max bases, reads) and pure-function bound (n, max bases)
 BOUNDS = {
     "quick": {"programs": [(1, 3, "all"), (2, 3, "all"), (3, 3, "all"), (4, 3, "all"), (3, 2, "all", "obj")],
-              "pure": (5, 3)},
+              "pure": (5, 3), "deep": [(7, 2, 2), (6, 2, 3)]},
     "thorough": {"programs": [(1, 3, "all"), (2, 3, "all"), (3, 3, "all"), (4, 3, "all"),
                               (5, 2, "all"), (3, 3, "all", "obj"), (4, 2, "all", "obj")],
-                 "pure": (6, 3)},
+                 "pure": (6, 3), "deep": [(8, 2, 2), (7, 2, 3), (6, 3, 3)]},
 }
 
 TYPE_OF = {"int": "1", "str": "''", "float": "1.5"}
@@ -57,12 +57,13 @@ TYPE_OF = {"int": "1", "str": "''", "float": "1.5"}
 # ---------------------------------------------------------------- the space
 
 
-def base_tuples(i, maxb, obj=False):
+def base_tuples(i, maxb, obj=False, window=None):
   """Every ordered tuple of <= maxb bases among classes 0..i-1 (repeats allowed).
 
-  obj=True adds an explicitly written `object` (OBJ) to the alphabet of bases.
+  obj=True adds an explicitly written `object` (OBJ) to the alphabet of bases; window=w restricts the
+  bases of class i to the w most recently defined classes (deep, narrow hierarchies).
   """
-  alphabet = list(range(i)) + ([OBJ] if obj else [])
+  alphabet = list(range(max(0, i - window) if window else 0, i)) + ([OBJ] if obj else [])
   for k in range(maxb + 1):
     yield from itertools.product(alphabet, repeat=k)
 
@@ -104,6 +105,27 @@ def hierarchies(n, maxb, obj=False):
       if i == n - 1:
         out.append(hier + (t,))
         continue
+      try:
+        c = type("C%d" % i, tuple(_bc(classes, b) for b in t), {})
+      except TypeError:
+        continue
+      classes.append(c)
+      rec(hier + (t,), classes)
+      classes.pop()
+  rec((), [])
+  return out
+
+
+def _windowed(n, maxb, window):
+  """Legal hierarchies of exactly n classes whose bases come from the `window` most recent classes."""
+  out = []
+
+  def rec(hier, classes):
+    i = len(hier)
+    if i == n:
+      out.append(hier)
+      return
+    for t in base_tuples(i, maxb, window=window):
       try:
         c = type("C%d" % i, tuple(_bc(classes, b) for b in t), {})
       except TypeError:
@@ -518,13 +540,14 @@ def _row_merge(mro_lib, rows):
 def work_pure(item):
   """Route M on the whole subtree below one legal prefix, up to n classes."""
   from pytype.pytd import mro as mro_lib
-  prefix, n, maxb = item
+  prefix, n, maxb = item[:3]
+  window = item[3] if len(item) > 3 else None
   stats = {"evals": 0, "refused": 0, "dup": 0, "multi": 0}
   found = {}   # (kind, minimal hier) -> (summary, found_in)
 
   def visit(hier, classes, mros):
     i = len(hier)
-    for t in base_tuples(i, maxb):
+    for t in base_tuples(i, maxb, window=window):
       h2 = hier + (t,)
       try:
         c = type("C%d" % i, tuple(_bc(classes, b) for b in t), {})
@@ -647,6 +670,11 @@ def run(rep, tier, seed):
     pn, pmaxb = bounds["pure"]
     split = min(4, pn - 1)
     pure_items = [((), split, pmaxb)] + [(p, pn, pmaxb) for p in legal_prefixes(split, pmaxb)]
+    # deep, narrow hierarchies (the property speaks of ~8 classes): every class picks <=B bases among the W
+    # most recent classes; the subtree below every legal 4-class prefix of the same family
+    for dn, dmaxb, dw in bounds["deep"]:
+      pre = [h for h in _windowed(4, dmaxb, dw)]
+      pure_items += [(p, dn, dmaxb, dw) for p in pre]
     for _, (stats, found, nfound) in pool.map([("pure", it) for it in pure_items], seed=seed, chunksize=1):
       for k, v in stats.items():
         pure_stats[k] = pure_stats.get(k, 0) + v
@@ -704,8 +732,10 @@ def run(rep, tier, seed):
       "pure_hierarchies_with_duplicate_base": pure_stats.get("dup", 0),
       "bounds": "tier=%s: programs %s (n classes, <=B bases each, every legal (n-1)-prefix x every n-th class; "
                 "reads=all: every class read, reads=last: only the new last class read, the prefix classes having "
-                "been read as the last class of their own program); MROMerge route n<=%d, <=%d bases"
-                % (tier, ["n=%d,B=%d,%s" % b[:3] + (",explicit-object" if len(b) > 3 else "") for b in bounds["programs"]], pn, pmaxb),
+                "been read as the last class of their own program); MROMerge route n<=%d, <=%d bases, plus deep families "
+                "(n classes, <=B bases among the W most recent classes) %s"
+                % (tier, ["n=%d,B=%d,%s" % b[:3] + (",explicit-object" if len(b) > 3 else "") for b in bounds["programs"]], pn, pmaxb,
+                   ["n<=%d,B=%d,W=%d" % d for d in bounds["deep"]]),
   })
   rep.rule = ("class i picks every ordered tuple of <=B bases among classes 0..i-1 (repeats allowed); every legal prefix "
               "is extended by every possible next class; each hierarchy is analysed as a source program, as a stub "
